@@ -11,7 +11,8 @@ timeout 3000 make -j16 2>&1 | grep -v '^Closed under' | tail -5
 cd ../_build/ml
 coqc -Q ../../coq/theories Dznpy ../../coq/theories/Extract/Extract.v > /dev/null
 cp ../../harness/ml/driver.ml .
-rm -f dznmodel
-ocamlfind ocamlopt -O3 -w -a model.mli model.ml driver.ml -o dznmodel 2>&1 | grep -v 'options -O3' || true
-[ -x dznmodel ] || { echo 'setup FAILED: OCaml model driver did not compile'; exit 1; }
+rm -f dznmodel.new
+ocamlfind ocamlopt -O3 -w -a model.mli model.ml driver.ml -o dznmodel.new 2>&1 | grep -v 'options -O3' || true
+[ -x dznmodel.new ] || { rm -f dznmodel; echo 'setup FAILED: OCaml model driver did not compile'; exit 1; }
+mv -f dznmodel.new dznmodel      # atomic: a check running concurrently never sees a missing binary
 echo '(110 (97 10 98))' | ./dznmodel | grep -q '((97) (98))' && echo "setup ok"
